@@ -45,7 +45,7 @@ func main() {
 		iterProbes:       r.Pick(10, 16),
 		prefixProbes:     r.Pick(5, 8),
 	}
-	nTrees := r.Pick(3000, 60000)
+	nTrees := r.Pick(9000, 60000)
 	r.Set("sizes", map[string]any{"trees": nTrees, "clients_per_tree": sz.clientsPerTree, "evil_schedules_per_tree": sz.clientsPerTree - 2,
 		"max_responses_per_peer": sz.responsesPerPeer, "max_ops_per_client": sz.maxOpsPerClient})
 
